@@ -10,7 +10,7 @@
 void verif_native_assert(int c, const char* msg);
 void verif_native_assume(int c);
 #define __CPROVER_assume(x) verif_native_assume(!!(x))
-#define __CPROVER_assert(c, m) verif_native_assert(!!(c), m)
+#define __CPROVER_assert(c, m) do { if (!(c)) verif_native_assert(0, m); } while (0) /* model-internal checks are silent unless they fail */
 #define __CPROVER_atomic_begin()
 #define __CPROVER_atomic_end()
 #endif
@@ -31,4 +31,27 @@ static inline uint64_t verif_cttz64(uint64_t x) { uint64_t n = 0; for (int i = 0
 static inline uint32_t verif_cttz32(uint32_t x) { uint32_t n = 0; for (int i = 0; i < 32; i++) { if ((x >> i) & 1) break; n++; } return n; }
 static inline uint64_t verif_ctpop64(uint64_t x) { uint64_t n = 0; for (int i = 0; i < 64; i++) n += (x >> i) & 1; return n; }
 static inline uint32_t verif_ctpop32(uint32_t x) { uint32_t n = 0; for (int i = 0; i < 32; i++) n += (x >> i) & 1; return n; }
+/* memory intrinsics. With a constant length the C library form is used (CBMC expands it per byte at fixed offsets);
+ * with a symbolic length a byte loop bounded by --unwind is far cheaper for CBMC than its array-theory memcpy model. */
+#include <string.h>
+static inline void verif_memcpy_loop(uint8_t* d, const uint8_t* s, uint64_t n) { for (uint64_t i = 0; i < n; i++) d[i] = s[i]; }
+static inline void verif_memmove_loop(uint8_t* d, const uint8_t* s, uint64_t n) {
+#ifdef VERIF_CBMC
+  if (__CPROVER_POINTER_OBJECT(d) == __CPROVER_POINTER_OBJECT(s) && __CPROVER_POINTER_OFFSET(d) > __CPROVER_POINTER_OFFSET(s))
+#else
+  if ((uintptr_t)d > (uintptr_t)s)
+#endif
+  { for (uint64_t i = n; i > 0; i--) d[i - 1] = s[i - 1]; }
+  else { for (uint64_t i = 0; i < n; i++) d[i] = s[i]; }
+}
+static inline void verif_memset_loop(uint8_t* d, uint8_t c, uint64_t n) { for (uint64_t i = 0; i < n; i++) d[i] = c; }
+#ifdef VERIF_BUILTIN_MEM
+#define verif_memcpy(d, s, n) do { if (n) memcpy((d), (s), (n)); } while (0)
+#define verif_memmove(d, s, n) do { if (n) memmove((d), (s), (n)); } while (0)
+#define verif_memset(d, c, n) do { if (n) memset((d), (c), (n)); } while (0)
+#else
+#define verif_memcpy(d, s, n) (__builtin_constant_p(n) ? (void)((n) ? memcpy((d), (s), (n)) : 0) : verif_memcpy_loop((d), (s), (n)))
+#define verif_memmove(d, s, n) (__builtin_constant_p(n) ? (void)((n) ? memmove((d), (s), (n)) : 0) : verif_memmove_loop((d), (s), (n)))
+#define verif_memset(d, c, n) (__builtin_constant_p(n) ? (void)((n) ? memset((d), (c), (n)) : 0) : verif_memset_loop((d), (uint8_t)(c), (n)))
+#endif
 #endif
